@@ -43,6 +43,11 @@ class Mod:
             self.tree = ast.parse(src, filename=path)
         except SyntaxError as ex:
             raise AnalysisError(f"{path} does not parse: {ex}")
+        # helpers that the reference tree does not have are inlined at their call sites (svx/normalize.py)
+        self.norm_log: List[str] = []
+        if os.environ.get("SVX_NO_NORMALIZE") != "1":
+            from .normalize import normalize
+            self.tree, self.norm_log = normalize(self.tree, name)
         self.parent: Dict[int, ast.AST] = {}
         self.qual: Dict[int, str] = {}
         self.defs: Dict[str, ast.AST] = {}
